@@ -41,6 +41,13 @@ def table_family():
             for c2 in (1, 2, 9):
                 for q in (0, 3):
                     fam.append(("2key:%s=%d,%s=%d,?=%d" % (k1, c1, k2, c2, q), {k1: c1, k2: c2, "?": q}))
+    # the same contents with '?' listed first / in the middle (dict order must not matter)
+    for name, t in list(fam):
+        if isinstance(t, dict) and len(t) >= 2 and (name.startswith("2key") or ("=3,?=2" in name or "=4,?=8" in name)):
+            items = list(t.items())
+            fam.append((name + " [?-first]", dict([items[-1]] + items[:-1])))
+    d = {"H": 1, "F": 1, "?": 8, "Sn+4": 3, "Se": 2, "O": 2, "N": 3, "Fe+2": 2}
+    fam.append(("?-in-the-middle", d))
     fam.append(("only-?=0", {"?": 0}))
     fam.append(("only-?=12", {"?": 12}))
     return fam
